@@ -300,6 +300,9 @@ impl<'a> Gen<'a> {
                 Doc::Int(256),
                 Doc::Int(3),
                 Doc::Int(250),
+                // values equal to the trait default and to the `default = expr` value of the library
+                Doc::Int(0),
+                Doc::Int(7),
                 Self::awkward_string(),
                 // an offending *object* whose member names need JSON escaping when quoted
                 Doc::Obj(vec![("the \"best\"".to_string(), Doc::Int(1)), ("c:\\temp\t".to_string(), Doc::Null)]),
